@@ -74,6 +74,24 @@ def hygiene():
     return hits
 
 
+def run_coqchk(props_file):
+    """Independent re-check of the compiled theorem file and everything it depends on (thorough tier)."""
+    modname = 'ByC.' + props_file[:-2].replace('/', '.')
+    t0 = time.time()
+    try:
+        p = subprocess.run(['timeout', '3000', 'coqchk', '-o', '-silent', '-Q', COQDIR + '/theories', 'ByC', modname],
+                           capture_output=True, text=True, cwd=COQDIR)
+        out = p.stdout + p.stderr
+        rc = p.returncode
+    except Exception as e:
+        out, rc = str(e), 99
+    axioms = []
+    if '* Axioms:' in out:
+        sec = out.split('* Axioms:')[1].split('\n* ')[0]
+        axioms = [l.strip() for l in sec.splitlines() if l.strip() and l.strip() != '<none>']
+    return {'rc': rc, 'module': modname, 'axioms': axioms, 'wall_s': round(time.time() - t0, 1), 'tail': out[-600:] if rc != 0 else ''}
+
+
 def check_theorems(prop, props_file):
     """Re-compile Props/Cxx.v; return (obligations, discharged, axioms, log)."""
     src = open(os.path.join(COQDIR, 'theories', props_file)).read()
@@ -220,6 +238,12 @@ def run_check(prop, tier, seed):
     th = check_theorems(prop, mod.PROPS_FILE) if rc == 0 else \
         {'obligations': 0, 'discharged': 0, 'axioms': [], 'ok': False, 'rc': rc, 'stderr': blog, 'names': []}
     proof_broken = (rc != 0) or (not th['ok']) or bool(hy) or th['discharged'] < th['obligations']
+    if tier == 'thorough' and not proof_broken:
+        ck = run_coqchk(mod.PROPS_FILE)
+        ev_extra['coqchk'] = ck
+        if ck['rc'] != 0:
+            proof_broken = True
+            th['stderr'] = (th.get('stderr') or '') + '\ncoqchk: ' + ck.get('tail', '')
 
     # 2. implementation on corpus + generated inputs ------------------------------------------
     cases = []
